@@ -646,25 +646,6 @@ func c12OrderFacts(sk []string) []c12Fact {
 		}
 	}
 	out = append(out, c12Fact{"the key of every table access is the name token", tv(keysSeen, keysOK)})
-	// 6. the named mutex is acquired by exactly one blocking Lock() (absence = refuted: polling or
-	// a bounded wait is not mutual exclusion and does not queue later entrants)
-	nLock, try := 0, false
-	for _, t := range sk {
-		if t == "M.Lock" || t == "M?.Lock" || strings.Contains(t, "M.Lock") && isSec(t) {
-			nLock++
-		}
-		if strings.Contains(t, "TryLock") {
-			try = true
-		}
-	}
-	switch {
-	case try || nLock == 0:
-		out = append(out, c12Fact{"the named mutex is acquired by one blocking Lock()", "false"})
-	case nLock == 1:
-		out = append(out, c12Fact{"the named mutex is acquired by one blocking Lock()", "true"})
-	default:
-		out = append(out, c12Fact{"the named mutex is acquired by one blocking Lock()", "unknown"})
-	}
 	malformed := idx(sk, func(t string) bool { return t == "T.Lock-without-Unlock" || t == "T.Unlock-without-Lock" })
 	switch {
 	case malformed >= 0:
@@ -805,6 +786,53 @@ func c12IsHook(c *ast.CallExpr) bool {
 	}
 	id, ok := sel.X.(*ast.Ident)
 	return ok && id.Name == "verifhook"
+}
+
+// c12Acquisition: how mutexRuntime.Eval acquires the named mutex — independent of the shape of the
+// function: every call `x.Lock()` / `x.TryLock()` on a plain local identifier anywhere in Eval
+// (any statement kind, function literals included) is counted. One Lock and no TryLock = true;
+// any TryLock = refuted (polling / a bounded wait is not mutual exclusion and does not queue
+// later entrants); no Lock at all (moved into a helper) = unknown.
+func c12Acquisition() c12Fact {
+	what := "the named mutex is acquired by one blocking Lock()"
+	fset := token.NewFileSet()
+	f, err := parser.ParseFile(fset, filepath.Join(repoDir(), "interpreter", "rt_statements.go"), nil, 0)
+	if err != nil {
+		return c12Fact{what, "unknown"}
+	}
+	for _, d := range f.Decls {
+		fd, ok := d.(*ast.FuncDecl)
+		if !ok || fd.Name.Name != "Eval" || fd.Recv == nil || len(fd.Recv.List) != 1 || fd.Body == nil {
+			continue
+		}
+		st, ok := fd.Recv.List[0].Type.(*ast.StarExpr)
+		if !ok {
+			continue
+		}
+		if id, ok := st.X.(*ast.Ident); !ok || id.Name != "mutexRuntime" {
+			continue
+		}
+		locks, tries := 0, 0
+		ast.Inspect(fd.Body, func(n ast.Node) bool {
+			if c, ok := n.(*ast.CallExpr); ok {
+				if c12LocalCall(c, "Lock") != "" {
+					locks++
+				}
+				if sel, ok := c.Fun.(*ast.SelectorExpr); ok && sel.Sel.Name == "TryLock" {
+					tries++
+				}
+			}
+			return true
+		})
+		switch {
+		case tries > 0:
+			return c12Fact{what, "false"}
+		case locks == 1:
+			return c12Fact{what, "true"}
+		}
+		return c12Fact{what, "unknown"}
+	}
+	return c12Fact{what, "unknown"}
 }
 
 func c12LocalCall(c *ast.CallExpr, method string) string {
@@ -1013,7 +1041,7 @@ func c12Tool(args []string) int {
 		tuf = append(tuf, c12Fact{u.where, u.kind})
 	}
 	c12WriteFacts(&sb, "tableUses", "every use of the selectors Mutexes / MutexeOwners (and of their aliases) in the whole tree: (where, guarded|unguarded|unknown)", tuf, err)
-	c12WriteFacts(&sb, "orderFacts", "orders and section boundaries read off the skeleton of mutexRuntime.Eval: (what, true|false|unknown)", c12OrderFacts(sk), nil)
+	c12WriteFacts(&sb, "orderFacts", "orders and section boundaries read off the skeleton of mutexRuntime.Eval: (what, true|false|unknown)", append(c12OrderFacts(sk), c12Acquisition()), nil)
 	rel, err := c12ReleaseDeferred()
 	c12WriteFacts(&sb, "releases", "every Lock / non-deferred Unlock of a local mutex value in mutexRuntime.Eval: (what, ok|bad|unknown)", rel, err)
 	cw, err := c12CounterWrites()
